@@ -6,7 +6,7 @@ eigenvector is projected out of the right-hand side — what the hybrid solver d
 The residues of the solutions with 10, 40, 160, ... moments are recomputed outside the loop (same formulas) and handed to the model, which
 says how many moments the returned solution has and whether the convergence warning is issued.  Compared: the returned solution (must equal
 the solution with that many moments), the warning, and — independently of the model — that without a warning the returned x satisfies
-|(E - H) x - v| <= atol, with `max_moments < 10` the call raises UnboundLocalError (recorded behaviour, `greens_unbound`)."""
+|(E - H) x - v| <= atol; for every `max_moments >= 1` a solution comes back (with the warning when the accuracy was not reached)."""
 import os, sys; sys.path.insert(0, os.path.dirname(os.path.abspath(__file__)))
 from common import case_rnd, skip
 import json, subprocess, warnings
@@ -37,7 +37,7 @@ def main(seed, ncases, driver, out):
         desc = {"case": c, "n": n, "energy": e, "on_level": on_level, "atol": atol, "max_moments": maxm}
         key = f"atol={atol} max_moments={maxm} on_level={on_level}"; dist[key] = dist.get(key, 0) + 1
         if len(samples) < 3: samples.append(desc)
-        ms = []; mm = 10
+        ms = []; mm = min(10, maxm)          # (the expansion starts with min(10, max_moments) moments)
         while mm <= maxm: ms.append(mm); mm *= 4
         sols = {mm: sol_with(h, e, v, mm) for mm in ms}
         res = {mm: float(np.linalg.norm((h @ s - e * s) + v)) for mm, s in sols.items()}
@@ -53,8 +53,7 @@ def main(seed, ncases, driver, out):
             except Exception as ex: x = None; err = type(ex).__name__ + ": " + str(ex)[:100]
         warned = any(issubclass(x_.category, RuntimeWarning) and "did not converge" in str(x_.message) for x_ in w)
         if err == "unbound":
-            if model[0] != "unbound": failures.append(dict(desc, kind="implementation-raises-UnboundLocalError", model=model))
-            continue
+            failures.append(dict(desc, kind="implementation-raises-UnboundLocalError: neither a solution nor a warning", model=model)); continue
         if err is not None: failures.append(dict(desc, kind="implementation-raises", error=err)); continue
         if model[0] == "unbound": failures.append(dict(desc, kind="model-says-unbound-but-implementation-answers")); continue
         k = int(model[0])
